@@ -20,6 +20,8 @@ var r *mon.Run
 
 var reused = map[string]ci.CommandInterface{}
 
+var held = mon.NewHeldRing(96)
+
 type slot struct {
 	leaf   smbgen.IntLeaf
 	lo, hi int // byte range [lo,hi) in the encoded command
@@ -72,9 +74,12 @@ func roundTrip(s smbgen.Struct, rels []smbgen.Relation, mode smbgen.Mode, iter i
 		r.Violation(s.Name+":marshal-error", "Marshal of an internally consistent assignment failed: "+err.Error(), cs(nil))
 		return
 	}
+	for _, tag := range held.Hold(b1, s.Name) {
+		r.Violation(tag+":held-output-changed", "bytes returned by an earlier Marshal of "+tag+" changed after later Marshal calls (output aliases a reused buffer)", cs(nil))
+	}
 	d := s.New()
 	var uerr error
-	pan, pv, st = mon.Guard(func() { _, uerr = d.Unmarshal(b1) })
+	pan, pv, st = mon.Guard(func() { _, uerr = d.Unmarshal(append([]byte{}, b1...)) })
 	r.Eval(1)
 	if pan {
 		r.Violation(s.Name+":unmarshal-panic:"+mon.PanicClass(pv), fmt.Sprintf("Unmarshal of own encoding panicked: %v at %s", pv, mon.TopLibFrame(st)), cs(map[string]any{"wire": mon.FullHex(b1)}))
